@@ -263,5 +263,297 @@ theorem shrinkSlice_noFault (hc : CfgOK cfg) {s : State} (h : GeomInv cfg s) (hd
         simp only [hadd, hua, liftM_ok, r_ok_bind]
         exact ⟨_, _, rfl⟩
 
+/-! ## copying the old block into a freshly allocated one -/
+
+/-- the old block lies in the content range of the current or an earlier chunk -/
+def OldBlock (cfg : Cfg) (s : State) (ptr n : Nat) : Prop :=
+  ∃ (i j : Nat) (c : Chunk), s.cur = .chunk i ∧ j ≤ i ∧ s.chunks[j]? = some c ∧
+    c.contentStart cfg ≤ ptr ∧ ptr + n ≤ c.contentEnd cfg
+
+theorem LiveBlock.old {s : State} {ptr n : Nat} (h : LiveBlock cfg s ptr n) : OldBlock cfg s ptr n := by
+  obtain ⟨i, j, c, h1, h2, h3, h4, h5, _⟩ := h
+  exact ⟨i, j, c, h1, h2, h3, h4, h5⟩
+
+/-- what a copy of (a prefix of) the old block `[ptr, ptr+n)` into the new block `[np, np+m)` needs -/
+structure CopyReady (cfg : Cfg) (s' : State) (ptr n np m : Nat) : Prop where
+  disjoint : ChunksDisjoint s'
+  src : ∃ (i : Nat) (c : Chunk), s'.chunks[i]? = some c ∧ c.base ≤ ptr ∧ ptr + n ≤ c.base + c.size
+  dst : ∃ (i : Nat) (c : Chunk), s'.chunks[i]? = some c ∧ ChunkWF cfg c ∧ c.contentStart cfg ≤ np ∧ np + m ≤ c.contentEnd cfg
+  apart : ptr + n ≤ np ∨ np + m ≤ ptr
+
+theorem CopyReady.copy {s' : State} {ptr n np m len : Nat} (r : CopyReady cfg s' ptr n np m) (h1 : len ≤ n) (h2 : len ≤ m)
+    (no : Bool) : ∃ s'', copyBytes cfg s' ptr np len no = .ok s'' := by
+  obtain ⟨i, c, hi, a1, a2⟩ := r.src
+  obtain ⟨j, d, hj, hw, b1, b2⟩ := r.dst
+  apply copyBytes_noFault r.disjoint (Or.inr ⟨i, c, hi, a1, by omega⟩) (Or.inr ⟨j, d, hj, hw, b1, by omega⟩)
+  intro _
+  rcases r.apart with h | h
+  · left; omega
+  · right; omega
+
+theorem shape_base {c c' : Chunk} (h : c'.shape = c.shape) : c'.base = c.base ∧ c'.size = c.size := by
+  simp only [Chunk.shape, Prod.mk.injEq] at h
+  exact ⟨h.1, h.2.1⟩
+
+/-- content ranges of two chunks with disjoint blocks are apart -/
+theorem content_apart {a b : Chunk} (ha : ChunkWF cfg a) (hb : ChunkWF cfg b)
+    (hd : a.base + a.size ≤ b.base ∨ b.base + b.size ≤ a.base) {x n y m : Nat}
+    (h1 : a.contentStart cfg ≤ x) (h2 : x + n ≤ a.contentEnd cfg) (h3 : b.contentStart cfg ≤ y) (h4 : y + m ≤ b.contentEnd cfg) :
+    x + n ≤ y ∨ y + m ≤ x := by
+  have := ha.base_le_start; have := ha.end_le; have := hb.base_le_start; have := hb.end_le
+  rcases hd with h | h
+  · left; omega
+  · right; omega
+
+/-- fast path: the new block lies on the free side of the position of the current chunk, the live
+    block on the allocated side or in an earlier chunk -/
+theorem copyReady_fast (hc : CfgOK cfg) {s : State} (h : GeomInv cfg s) (hd : ChunksDisjoint s) {L : Layout} (hL : L.Valid)
+    {ptr n : Nat} (hl : LiveBlock cfg s ptr n) {v : Nat × Nat} {s' : State}
+    (ht : tryCurSpec cfg .alloc s L = some (v, s')) : CopyReady cfg s' ptr n v.1 L.size := by
+  obtain ⟨i, c, np, hcur, hi, hs', b1, b2, b3, b4, b5, b6⟩ := tryCurSpec_alloc_some hc h hL ht
+  obtain ⟨g1, g2, _⟩ := tryCurSpec_inv hc h hL ht
+  obtain ⟨i', j, cj, hcur', hji, hj, l1, l2, l3⟩ := hl
+  rw [hcur] at hcur'; cases hcur'
+  have hw := h.chunks i c hi
+  have hwj := h.chunks j cj hj
+  obtain ⟨c', hi', hsh⟩ := g2.getElem?' hi
+  obtain ⟨cj', hj', hshj⟩ := g2.getElem?' hj
+  have hw' := g1.chunks i c' hi'
+  have hdst : c.contentStart cfg ≤ v.1 ∧ v.1 + L.size ≤ c.contentEnd cfg := by
+    have := hw.pos_ge; have := hw.pos_le
+    cases hup : cfg.up
+    · simp only [hup, Bool.false_eq_true, ↓reduceIte] at b6; omega
+    · simp only [hup, ↓reduceIte] at b6; omega
+  refine ⟨g2.disjoint hd, ⟨j, cj', hj', ?_, ?_⟩, ⟨i, c', hi', hw', ?_, ?_⟩, ?_⟩
+  · rw [(shape_base hshj).1]; exact Nat.le_trans hwj.base_le_start l1
+  · rw [(shape_base hshj).1, (shape_base hshj).2]; exact Nat.le_trans l2 hwj.end_le
+  · rw [shape_contentStart hsh]; exact hdst.1
+  · rw [shape_contentEnd hsh]; exact hdst.2
+  · by_cases hji' : j = i
+    · subst hji'
+      rw [hi] at hj; cases hj
+      have l3' := l3 rfl
+      cases hup : cfg.up
+      · simp only [hup, Bool.false_eq_true, ↓reduceIte] at b6 l3'; right; omega
+      · simp only [hup, ↓reduceIte] at b6 l3'; left; omega
+    · exact content_apart hwj hw (hd j i cj c hji' hj hi) l1 l2 hdst.1 hdst.2
+
+/-- every chunk of a list that extends `s.chunks` (by shape) with `c` is an old chunk or `c` -/
+theorem append_cases {s sx : State} {c : Chunk}
+    (hsh : sx.chunks.map Chunk.shape = s.chunks.map Chunk.shape ++ [Chunk.shape c]) (i : Nat) (a : Chunk)
+    (ha : sx.chunks[i]? = some a) :
+    (i < s.chunks.length ∧ ∃ a', s.chunks[i]? = some a' ∧ a.base = a'.base ∧ a.size = a'.size) ∨
+    (i = s.chunks.length ∧ a.base = c.base ∧ a.size = c.size) := by
+  have hlen : sx.chunks.length = s.chunks.length + 1 := by
+    have := congrArg List.length hsh
+    simpa only [List.length_map, List.length_append, List.length_cons, List.length_nil] using this
+  have h1 : (sx.chunks.map Chunk.shape)[i]? = some a.shape := by rw [List.getElem?_map, ha]; rfl
+  rw [hsh, List.getElem?_append, List.length_map] at h1
+  by_cases hlt : i < s.chunks.length
+  · rw [if_pos hlt, List.getElem?_map] at h1
+    cases ha' : s.chunks[i]? with
+    | none => rw [ha'] at h1; cases h1
+    | some a' =>
+      rw [ha'] at h1
+      simp only [Option.map_some, Option.some.injEq] at h1
+      have := shape_base h1.symm
+      exact Or.inl ⟨hlt, a', rfl, this.1, this.2⟩
+  · rw [if_neg hlt] at h1
+    have hi : i = s.chunks.length := by
+      have := (List.getElem?_eq_some_iff.1 ha).1
+      omega
+    rw [hi, Nat.sub_self] at h1
+    simp only [List.getElem?_cons_zero, Option.some.injEq] at h1
+    have := shape_base h1.symm
+    exact Or.inr ⟨hi, this.1, this.2⟩
+
+/-- disjointness of a chunk list extended by a chunk inside a fresh granted block -/
+theorem disjoint_append {s sx : State} (hd : ChunksDisjoint s) (hf : RespsFresh s) {p g : Nat} {rest : List BaseResp}
+    (hrs : s.resps = .granted p g :: rest) {c : Chunk} (hcb : c.base = p) (hcs : c.size ≤ g)
+    (hsh : sx.chunks.map Chunk.shape = s.chunks.map Chunk.shape ++ [Chunk.shape c]) : ChunksDisjoint sx := by
+  have hmem : BaseResp.granted p g ∈ s.resps := by rw [hrs]; exact List.mem_cons_self
+  have hfresh := hf.2 p g hmem
+  intro i j a b hij ha hb
+  rcases append_cases hsh i a ha with ⟨hi, a', ha', e1, e2⟩ | ⟨hi, e1, e2⟩
+  · rcases append_cases hsh j b hb with ⟨hj, b', hb', f1, f2⟩ | ⟨hj, f1, f2⟩
+    · have := hd i j a' b' hij ha' hb'
+      omega
+    · have := hfresh i a' ha'
+      omega
+  · rcases append_cases hsh j b hb with ⟨hj, b', hb', f1, f2⟩ | ⟨hj, f1, f2⟩
+    · have := hfresh j b' hb'
+      omega
+    · omega
+
+/-- slow path: the new block lies in a later or in a new chunk -/
+theorem copyReady_slow (hc : CfgOK cfg) {s : State} (h : GeomInv cfg s) (hd : ChunksDisjoint s) (hf : RespsFresh s)
+    {L : Layout} (hL : L.Valid) {ptr n : Nat} (hl : OldBlock cfg s ptr n) {v : Nat × Nat} {s' : State}
+    (hfrom : SlowFrom cfg .alloc L s s' v) : CopyReady cfg s' ptr n v.1 L.size := by
+  obtain ⟨sx, hx, hxm, ht, horigin⟩ := hfrom
+  obtain ⟨jx, cx, np, hxcur, hxi, hs', b1, b2, b3, b4, b5, b6⟩ := tryCurSpec_alloc_some hc hx hL ht
+  obtain ⟨g1, g2, _⟩ := tryCurSpec_inv hc hx hL ht
+  obtain ⟨i, j, cj, hcur, hji, hj, l1, l2⟩ := hl
+  have hwx := hx.chunks jx cx hxi
+  have hwj := h.chunks j cj hj
+  have hdst : cx.contentStart cfg ≤ v.1 ∧ v.1 + L.size ≤ cx.contentEnd cfg := by
+    have := hwx.pos_ge; have := hwx.pos_le
+    cases hup : cfg.up
+    · simp only [hup, Bool.false_eq_true, ↓reduceIte] at b6; omega
+    · simp only [hup, ↓reduceIte] at b6; omega
+  obtain ⟨cx', hxi', hshx⟩ := g2.getElem?' hxi
+  have hwx' := g1.chunks jx cx' hxi'
+  -- the old chunk `j` survives in `sx` with the same shape, at an index different from `jx`
+  have hold : ∃ cjx, sx.chunks[j]? = some cjx ∧ cjx.base = cj.base ∧ cjx.size = cj.size ∧ j ≠ jx ∧ ChunksDisjoint sx := by
+    rcases horigin with ⟨hsh, i', j', hc1, hc2, hlt⟩ | ⟨p, g, rest, c, hrs, hcb, hcs, hsh, hcx⟩
+    · rw [hcur] at hc1; cases hc1
+      rw [hxcur] at hc2; cases hc2
+      obtain ⟨cjx, e1, e2⟩ := hsh.getElem?' hj
+      exact ⟨cjx, e1, (shape_base e2).1, (shape_base e2).2, by omega, hsh.disjoint hd⟩
+    · rw [hxcur] at hcx; cases hcx
+      have hjlt : j < s.chunks.length := (List.getElem?_eq_some_iff.1 hj).1
+      have h1 : (sx.chunks.map Chunk.shape)[j]? = some cj.shape := by
+        rw [hsh, List.getElem?_append, List.length_map, if_pos hjlt, List.getElem?_map, hj]; rfl
+      rw [List.getElem?_map] at h1
+      cases hcjx : sx.chunks[j]? with
+      | none => rw [hcjx] at h1; cases h1
+      | some cjx =>
+        rw [hcjx] at h1
+        simp only [Option.map_some, Option.some.injEq] at h1
+        exact ⟨cjx, rfl, (shape_base h1).1, (shape_base h1).2, by omega, disjoint_append hd hf hrs hcb hcs hsh⟩
+  obtain ⟨cjx, e1, e2, e3, hne, hdx⟩ := hold
+  obtain ⟨cj', hj', hshj⟩ := g2.getElem?' e1
+  have hbs := hwj.base_le_start
+  have hel := hwj.end_le
+  have hxbs := hwx.base_le_start
+  have hxel := hwx.end_le
+  refine ⟨g2.disjoint hdx, ⟨j, cj', hj', ?_, ?_⟩, ⟨jx, cx', hxi', hwx', ?_, ?_⟩, ?_⟩
+  · rw [(shape_base hshj).1, e2]; omega
+  · rw [(shape_base hshj).1, (shape_base hshj).2, e2, e3]; omega
+  · rw [shape_contentStart hshx]; exact hdst.1
+  · rw [shape_contentEnd hshx]; exact hdst.2
+  · have := hdx j jx cjx cx hne e1 hxi
+    rcases this with hh | hh
+    · left; omega
+    · right; omega
+
+/-! ## transfer along shape-preserving steps -/
+
+theorem SameShape.respsFresh {s s' : State} (h : SameShape s s') (hr : s'.resps = s.resps) (hf : RespsFresh s) :
+    RespsFresh s' := by
+  refine ⟨hr ▸ hf.1, ?_⟩
+  intro p g hm i c hc
+  rw [hr] at hm
+  have h1 := h.getElem? i
+  rw [hc] at h1
+  cases hc' : s.chunks[i]? with
+  | none => rw [hc'] at h1; simp at h1
+  | some c' =>
+    rw [hc'] at h1
+    simp only [Option.map_some, Option.some.injEq] at h1
+    have := shape_base h1
+    have := hf.2 p g hm i c' hc'
+    omega
+
+theorem SameShape.requestSize {s s' : State} (h : SameShape s s') (hcur : s'.cur = s.cur) (L : Layout) :
+    requestSize cfg s' L = requestSize cfg s L := by
+  unfold Arena.requestSize
+  rw [hcur]
+  cases s.cur with
+  | claimed => rfl
+  | unallocated => rfl
+  | chunk i =>
+    simp only
+    have hl := h.getLast?
+    cases h1 : s'.chunks.getLast? with
+    | none =>
+      rw [h1] at hl
+      cases h2 : s.chunks.getLast? with
+      | none => rfl
+      | some b => rw [h2] at hl; simp at hl
+    | some a =>
+      rw [h1] at hl
+      cases h2 : s.chunks.getLast? with
+      | none => rw [h2] at hl; simp at hl
+      | some b =>
+        rw [h2] at hl
+        simp only [Option.map_some, Option.some.injEq] at hl
+        simp only [(shape_base hl).2]
+
+theorem SameShape.baseOK {s s' : State} (h : SameShape s s') (hcur : s'.cur = s.cur) (hr : s'.resps = s.resps)
+    {L : Layout} (hb : BaseOK cfg s L) : BaseOK cfg s' L := by
+  intro size hs
+  rw [h.requestSize hcur L] at hs
+  obtain ⟨r, rest, h1, h2⟩ := hb size hs
+  exact ⟨r, rest, by rw [hr]; exact h1, h2⟩
+
+/-- chunk disjointness and freshness of the pending responses are preserved along a `Trace` -/
+theorem Trace.disjoint {s s' : State} (t : Trace s s') (hd : ChunksDisjoint s) (hf : RespsFresh s) :
+    ChunksDisjoint s' ∧ RespsFresh s' := by
+  rcases t with ⟨t1, t2⟩ | ⟨p, g, c, t1, t2, t3, t4⟩
+  · refine ⟨SameShape.disjoint t1 hd, ?_⟩
+    rcases t2 with t2 | t2
+    · exact SameShape.respsFresh t1 t2 hf
+    · have hpc := hf.1
+      rw [t2] at hpc
+      have hpw := (List.pairwise_cons.1 hpc).2
+      refine ⟨hpw, ?_⟩
+      intro p' g' hm i c' hc'
+      have h1 := SameShape.getElem? t1 i
+      rw [hc'] at h1
+      cases hc0 : s.chunks[i]? with
+      | none => rw [hc0] at h1; simp at h1
+      | some c0 =>
+        rw [hc0] at h1
+        simp only [Option.map_some, Option.some.injEq] at h1
+        have := shape_base h1
+        have := hf.2 p' g' (by rw [t2]; exact List.mem_cons_of_mem _ hm) i c0 hc0
+        omega
+  · refine ⟨disjoint_append hd hf t1 t2 t3 t4, ?_⟩
+    have hpc := hf.1
+    rw [t1] at hpc
+    obtain ⟨hhead, hpw⟩ := List.pairwise_cons.1 hpc
+    refine ⟨hpw, ?_⟩
+    intro p' g' hm i a ha
+    rcases append_cases t4 i a ha with ⟨hi, a', ha', e1, e2⟩ | ⟨hi, e1, e2⟩
+    · have := hf.2 p' g' (by rw [t1]; exact List.mem_cons_of_mem _ hm) i a' ha'
+      omega
+    · have := hhead _ hm
+      simp only at this
+      omega
+
+/-! ## the block returned by `alloc` can receive a copy of a live block -/
+
+theorem allocGeneric_copyReady (hc : CfgOK cfg) {s : State} (h : GeomInv cfg s) (hr : RespsOK cfg s)
+    (hd : ChunksDisjoint s) (hf : RespsFresh s) {L : Layout} {hints hSlow : Hints} (hL : L.Valid)
+    (hh : hints.sma = true → L.align ∣ L.size) (hhs : hSlow.sma = true → L.align ∣ L.size)
+    {ptr n : Nat} (hl : LiveBlock cfg s ptr n) {s' : State} {v : Nat × Nat}
+    (he : allocGeneric cfg .alloc s L hints hSlow = .ok (s', .ok v)) : CopyReady cfg s' ptr n v.1 L.size := by
+  unfold allocGeneric at he
+  rw [tryCur_eq hc h .alloc hL hh] at he
+  simp only [r_ok_bind] at he
+  cases ht : tryCurSpec cfg .alloc s L with
+  | none =>
+    rw [ht] at he
+    have := ((inAnotherChunk_ok' hc h hr .alloc hL hhs (fun hx => by cases hx)).1 s' (.ok v) he).2 v rfl
+    exact copyReady_slow hc h hd hf hL hl.old this
+  | some x =>
+    obtain ⟨v', s1⟩ := x
+    rw [ht] at he
+    cases he
+    exact copyReady_fast hc h hd hL hl ht
+
+theorem alloc_copyReady (hc : CfgOK cfg) {s : State} (h : GeomInv cfg s) (hr : RespsOK cfg s)
+    (hd : ChunksDisjoint s) (hf : RespsFresh s) {L : Layout} (hL : L.Valid)
+    {ptr n : Nat} (hl : LiveBlock cfg s ptr n) {s' : State} {np : Nat}
+    (he : alloc cfg s L = .ok (s', .ok np)) : CopyReady cfg s' ptr n np L.size := by
+  unfold alloc at he
+  obtain ⟨⟨s1, r1⟩, h1, h2⟩ := bind_eq_ok he
+  cases r1 with
+  | error e => cases h2
+  | ok v =>
+    cases h2
+    have hcu : Hints.custom.sma = true → L.align ∣ L.size := fun hx => by cases hx
+    exact allocGeneric_copyReady hc h hr hd hf hL hcu hcu hl h1
+
 end
 end Arena
